@@ -57,6 +57,27 @@ theorem C04_unique_answer (tbl : List Binding) (hn : AllNorm tbl) (hu : UniqueOw
       (by omega)
   exact ⟨hu b hb b' hb' (hbh.trans hbh'.symm) hp, hp⟩
 
+/-- A request target without a path (absolute-form `GET http://host HTTP/1.1`: `URL.Path` is empty)
+    is routed exactly like `/`, for every table, arrangement and host. -/
+theorem C04_empty_path_is_root (arr : List Binding → List Binding) (tbl : List Binding) (host : Bytes) :
+    serviceForArr arr tbl host [] = serviceForArr arr tbl host [cSlash] := by
+  have h : ∀ pfx, matchesPfx [] pfx = matchesPfx [cSlash] pfx := fun pfx => by
+    simp [matchesPfx, ensureTrailingSlash]
+  unfold serviceForArr firstMatch
+  simp only [h]
+
+/-- … hence it reaches a root-prefix service of the host's level whenever there is one: no 404. -/
+theorem C04_empty_path_not_404 (arr : List Binding → List Binding) (ha : Admissible arr)
+    (tbl : List Binding) (host h : Bytes) (b : Binding)
+    (hl : hostLevel tbl host = some h) (hb : b ∈ tbl) (hbh : b.host = h) (hp : b.pfx = [cSlash]) :
+    (serviceForArr arr tbl host []).isSome := by
+  unfold serviceForArr firstMatch
+  rw [hl]
+  simp only [List.find?_isSome]
+  refine ⟨b, ((ha _).1 b).mpr ?_, ?_⟩
+  · simp [bindingsAt, hb, hbh]
+  · simp [matchesPfx, ensureTrailingSlash, hp]
+
 /-- Correct and 404 exclude each other. -/
 theorem C04_best_excludes_404 (tbl : List Binding) (host path : Bytes) (b : Binding)
     (h : IsBest tbl host path b) : ¬ NoneMatches tbl host path := by
@@ -173,6 +194,7 @@ def exTbl : List Binding :=
 example : (serviceFor exTbl (asciiB "a.com") (asciiB "/apiary")).map (·.svc) = some (asciiB "root") := by decide
 example : (serviceFor exTbl (asciiB "a.com") (asciiB "/api/x")).map (·.svc) = some (asciiB "api") := by decide
 example : (serviceForRequest exTbl (asciiB "x.a.com:8080") (asciiB "/api")).map (·.svc) = some (asciiB "wild") := by decide
+example : (serviceFor exTbl (asciiB "a.com") []).map (·.svc) = some (asciiB "root") := by decide
 example : (serviceFor exTbl (asciiB "b.org") (asciiB "/")).map (·.svc) = some (asciiB "dflt") := by decide
 
 end KamalProxy.C04
